@@ -266,7 +266,7 @@ class Prop:
     probes = ["family_G", "family_T", "family_S", "compared", "value_nonzero", "internal_after_output", "product_requested",
               "hermitian_product", "marker_hermitian", "marker_antihermitian", "clause_diagonal", "clause_offdiagonal",
               "clause_lower", "fn_call", "fn_series_arg", "division", "ifexp", "start_one", "start_input", "start_none",
-              "two_block_optimized", "commuting_false", "offdiag_present", "program_rejected", "prelude_program", "hermitian_product_3", "linear_operator_mode", "family_F", "flags_clause_checked", "slice_request", "domain_float", "linear_operator_mode_generated", "eviction_observed", "series_dict_reused",
+              "two_block_optimized", "commuting_false", "offdiag_present", "program_rejected", "prelude_program", "hermitian_product_3", "linear_operator_mode", "family_F", "flags_clause_checked", "slice_request", "domain_float", "linear_operator_mode_generated", "eviction_observed", "series_dict_reused", "flags_two_block_without_commuting",
               "recompute_after_eviction"]
     components_real = ["pymablock.algorithm_parsing (compiler, series_computation), pymablock.series, pymablock.algorithms, "
                        "block_diagonalize wiring of scope (family S)"]
@@ -420,7 +420,12 @@ class Prop:
         w["deg"] = False
         nb = len(w["sizes"])
         ops = self._schedule(r, ["H_tilde", "U", "U†"], ["H_tilde", "U", "U†"], nb, 1, 3, "quick")[:25]
-        return {"family": "F", "world": w, "nb": nb, "ninf": 1, "cap": 3, "ops": ops}
+        # flag combinations to compare with: every flag the library sets may be kept or withdrawn (a withdrawn promise is
+        # always legal); the all-withdrawn combination is always among them
+        variants = [[False, [False] * nb]]
+        for _ in range(r.choice([0, 1, 2])):
+            variants.append([r.random() < 0.6, [r.random() < 0.5 for _ in range(nb)]])
+        return {"family": "F", "world": w, "nb": nb, "ninf": 1, "cap": 3, "ops": ops, "variants": variants}
 
     def _execute_F(self, case):
         from pymablock import algorithms
@@ -433,16 +438,22 @@ class Prop:
         sim = graph.Sim(w, graph.Env(active=False))
         sim.build(0)
         gl = sim.comps[0]["out"][0].eval.__globals__
-        sim2 = graph.Sim(w, graph.Env(active=False))  # fresh input objects for the un-optimised twin
-        sim2.build(0)
-        H2 = sim2.comps[0]["out"][0].eval.__globals__["series"]["H"]
-        scope = {"solve_sylvester": gl["solve_sylvester"], "two_block_optimized": False,
-                 "commuting_blocks": [False] * nb}
-        for k in ("diag", "offdiag"):  # a single block is fully diagonalised by default
-            if gl.get(k) is not None:
-                scope[k] = gl[k]
-        plain, _ = series_computation({"H": H2}, algorithm=algorithms.main, scope=scope, operator=lambda a, b: a @ b)
         optimised = gl["series"]
+        plains = []
+        for keep_tb, keep_cb in case.get("variants") or [[False, [False] * nb]]:
+            sim2 = graph.Sim(w, graph.Env(active=False))  # fresh input objects for every twin
+            sim2.build(0)
+            H2 = sim2.comps[0]["out"][0].eval.__globals__["series"]["H"]
+            flags = {"two_block_optimized": bool(gl["two_block_optimized"] and keep_tb),
+                     "commuting_blocks": [bool(a and b) for a, b in zip(gl["commuting_blocks"], keep_cb)]}
+            scope = {"solve_sylvester": gl["solve_sylvester"], **flags}
+            for k in ("diag", "offdiag"):  # a single block is fully diagonalised by default
+                if gl.get(k) is not None:
+                    scope[k] = gl[k]
+            plain, _ = series_computation({"H": H2}, algorithm=algorithms.main, scope=scope, operator=lambda a, b: a @ b)
+            plains.append((flags, plain))
+            if flags["two_block_optimized"] and not all(flags["commuting_blocks"]):
+                counters["flags_two_block_without_commuting"] = 1
         violation = None
         compared = 0
         for opi, op in enumerate(case["ops"]):
@@ -452,13 +463,18 @@ class Prop:
             if i >= nb or j >= nb or sum(n) > case["cap"]:
                 continue
             index = (i, j, *n)
-            a, b = optimised[name][index], plain[name][index]
-            na, nb_ = norm(a), norm(b)
+            a = optimised[name][index]
+            na = norm(a)
             # an explicit zero matrix and the absent sentinel denote the same value
             za = na[0] == "zero" or (na[0] == "sym" and all(x == 0 for x in na[2]))
-            zb = nb_[0] == "zero" or (nb_[0] == "sym" and all(x == 0 for x in nb_[2]))
-            if not ((za and zb) or same(na, nb_, stats)):
-                violation = {"class": "flags-change-value", "detail": f"op#{opi} {name}[{index}]: with two_block_optimized={gl['two_block_optimized']}, commuting_blocks={gl['commuting_blocks']} -> {self._show(a)}; with the flags off -> {self._show(b)}", "info": {}}
+            for flags, plain in plains:
+                b = plain[name][index]
+                nb_ = norm(b)
+                zb = nb_[0] == "zero" or (nb_[0] == "sym" and all(x == 0 for x in nb_[2]))
+                if not ((za and zb) or same(na, nb_, stats)):
+                    violation = {"class": "flags-change-value", "detail": f"op#{opi} {name}[{index}]: with two_block_optimized={gl['two_block_optimized']}, commuting_blocks={gl['commuting_blocks']} -> {self._show(a)}; with two_block_optimized={flags['two_block_optimized']}, commuting_blocks={flags['commuting_blocks']} -> {self._show(b)}", "info": {}}
+                    break
+            if violation:
                 break
             compared += 1
             events.append(("ret", opi, name, index, fingerprint(norm(a))))
